@@ -27,6 +27,13 @@ def _pointer_summaries(P):
     P[r'(?:std::sync::)?Weak::upgrade'] = lambda se, env, pc, w: lib.one(env, Enum('Some', (one_hop(se, env, pc, w)[0][1],)))
     P[r'<(?:std::sync::)?Weak<.*> as Clone>::clone'] = one_hop
     P[r'<Option<.*> as Clone>::clone'] = one_hop
+    # reference counts are not tracked by the heap-cell model: a count read by the code is any value >= 1
+    cnt = [0]
+    def strong_count(se, env, pc, a):
+        from z3 import UGE
+        cnt[0] += 1; c = BitVec('strong_count_%d' % cnt[0], 64)
+        return [(UGE(c, bv(1)), c, env.get('$state'))]
+    P[r'Arc::strong_count'] = strong_count; P[r'Arc::<.*>::strong_count'] = strong_count
     return one_hop
 
 
@@ -140,7 +147,7 @@ def o3_4_snapshot_list(mir, tier):
     newest() the one taken last, is_empty() iff none is live."""
     M = lambda n: mir.method('SnapshotList', n)
     fns = {n: M(n) for n in ('new', 'new_snapshot', 'delete_snapshot', 'is_empty', 'oldest', 'newest')}
-    L = 3 if tier == 'quick' else 4
+    L = 4 if tier == 'quick' else 5
     def seqs_of(maxlen):
         def rec(prefix, size):
             yield prefix
@@ -154,6 +161,18 @@ def o3_4_snapshot_list(mir, tier):
     t0 = time.time()
     nf = mir.struct_fields('Node')
     from z3 import ULE
+    def replays(seq, m):
+        # native candidates: a write between any two snapshots; no write between snapshots whose sequence numbers are equal in the
+        # model; no write between any two snapshots (snapshots of one state)
+        out = []
+        for mode in ('writes', 'model', 'same'):
+            toks = []; prev = None
+            for i, (o, a) in enumerate(seq):
+                if o != 'new': toks.append('%s:%d' % (o, a)); continue
+                same = prev is not None and (mode == 'same' or (mode == 'model' and m is not None and mval(m, BitVec('sequence%d' % i, 64)) == mval(m, BitVec('sequence%d' % prev, 64))))
+                toks.append('new:%d%s' % (a, ':same' if same else '')); prev = i
+            if ['snapshot_list'] + toks not in out: out.append(['snapshot_list'] + toks)
+        return out
     for seq in seqs:
         S = lib.std_summaries(); P = S['$patterns']
         lib.combinator_summaries(P)
@@ -182,7 +201,7 @@ def o3_4_snapshot_list(mir, tier):
                         posts.append(('newest() is not the live snapshot that was taken last', seq_of(ex, e3, new) == live[-1][0]))
                     res.cases['%d ops' % len(seq)] = res.cases.get('%d ops' % len(seq), 0) + 1
                     for label, post, m in ex.check_posts(posts, p3):
-                        res.violations.append({'label': label, 'ops': [list(o) for o in seq], 'live': len(live), 'replay': ['snapshot_list'] + ['%s:%d' % (o, a) for o, a in seq]})
+                        for rp in replays(seq, m): res.violations.append({'label': label, 'ops': [list(o) for o in seq], 'live': len(live), 'replay': rp})
                 if not live: return fin(None, None, e1, p1)
                 ex.run_fn(fns['oldest'], [Ref('$sl')], e1, p1, lambda old, e2, p2: ex.run_fn(fns['newest'], [Ref('$sl')], e2, p2, lambda new, e3, p3: fin(old, new, e3, p3)))
             ex.run_fn(fns['is_empty'], [Ref('$sl')], env, pc, with_empty)
@@ -192,7 +211,9 @@ def o3_4_snapshot_list(mir, tier):
         res.absorb(ex)
         for pcx, msg, where in ex.panics:
             ex.solver.push(); ex.solver.add(*pre); ex.solver.add(*[c for c in pcx if not isinstance(c, bool)]); feas = str(ex.solver.check()) == 'sat'; ex.solver.pop()
-            if feas: res.panic_paths += 1; res.violations.append({'label': 'panic path: ' + msg[:80], 'ops': [list(o) for o in seq], 'replay': ['snapshot_list'] + ['%s:%d' % (o, a) for o, a in seq]})
+            if feas:
+                res.panic_paths += 1
+                for rp in replays(seq, None): res.violations.append({'label': 'panic path: ' + msg[:80], 'ops': [list(o) for o in seq], 'replay': rp})
     res.wall_s = time.time() - t0
     if res.violations: res.status = 'violation'
     return res
